@@ -230,6 +230,28 @@ Theorem C20_pattern_debug_roundtrip : forall m pat,
       exists c, get_pixel d (P x y) = Ok c /\ cc m c (nth (Z.to_nat x) (nth (Z.to_nat y) pat []) SPACE).
 Proof. exact pattern_then_debug. Qed.
 
+(* the same for patterns in any accepted spelling: lower-case hex digits are accepted and are printed back in upper case *)
+Theorem C20_pattern_debug_roundtrip_any_case : forall m pat,
+  In m all_mappings -> pattern_wf_any m pat ->
+  exists d, from_pattern m pat = Ok d /\
+    debug_rows m d = Ok (normalise (map (map ascii_upper) pat)) /\
+    forall x y, 0 <= x < SIZE -> 0 <= y < SIZE ->
+      exists c, get_pixel d (P x y) = Ok c /\ pattern_char m (nth (Z.to_nat x) (nth (Z.to_nat y) pat []) SPACE) = Ok c.
+Proof. exact pattern_then_debug_any_case. Qed.
+
+(* the text Debug writes, in terms of the printed rows: "MockDisplay[", the rows, "(n empty rows skipped)" with
+   n = 64 - number of printed rows when n > 0, "]"; n in decimal *)
+Theorem C20_debug_string_rows : forall m d rows,
+  debug_rows m d = Ok rows ->
+  zlen rows <= SIZE /\
+  debug_string m d =
+    Ok (STR_HEAD ++ [10] ++ concat (map (fun r => r ++ [10]) rows)
+        ++ (if zlen rows <? SIZE then [40] ++ decimal (SIZE - zlen rows) ++ STR_SKIP ++ [10] else []) ++ [93; 10]).
+Proof. exact debug_string_rows. Qed.
+
+Theorem C20_decimal : forall n, 0 <= n < 100 -> decimal n = if n <? 10 then [48 + n] else [48 + n / 10; 48 + n mod 10].
+Proof. exact decimal_spec. Qed.
+
 Theorem C20_pattern_debug_pattern : forall m pat d,
   In m all_mappings -> pattern_wf m pat -> from_pattern m pat = Ok d ->
   exists d', from_pattern m (normalise pat) = Ok d' /\ mock_eq d' d = true.
